@@ -12,6 +12,8 @@ RULE = ("Generated: DensityMatrix with num_visible 1..4 x num_hidden 1..4 x num_
         "Oracle: rho = Psi Psi^dagger with the purified amplitude Psi(sigma,a) enumerated over all 2^nh hidden and 2^na "
         "auxiliary configurations (partial trace by matrix product). Non-trivial = amplitude aux bias non-zero, weights_U of "
         "both networks non-zero, and some off-diagonal entry with |Im| > 1e-6*sqrt(rho_ii rho_jj).")
+RULE_EXT = ('Extended as built: n 5..8 in 1/16 of cases; phase auxiliary bias non-zero in 1/5 of cases; every evaluation repeated after a second object was evaluated and along the in-place history A -> B -> A; importance_sampling_* and compute_normalization compared with the same reference.')
+RULE = RULE + " " + RULE_EXT
 ASSUMPTIONS = ["CPU only", "parameters rescaled so |log weight| <= 300",
                "entry tolerance 1e-6*sqrt(rho_ii*rho_jj); PSD checked on the unit-diagonal congruence D^-1/2 rho D^-1/2 with eigenvalues >= -1e-7"]
 
